@@ -312,7 +312,22 @@ class PoolWorld:
             key = enter(i)
             leave(key)
 
+        class _Holder:
+            def __canon__(self_):
+                return ("holder", which, p, tag)
+
+            def sync_method(self_, i):
+                key = enter(i)
+                leave(key)
+
+            async def async_method(self_, i):
+                key = enter(i)
+                leave(key)
+
+        holder = _Holder()
         table = {
+            "method": holder.sync_method,
+            "amethod": holder.async_method,
             "plain": plain,
             "coro": coro,
             "slow": slow,
@@ -629,9 +644,10 @@ class PoolWorld:
                 req.group = g
                 self.reqs[tag] = req
                 return ("ok", g)
+            mkw = {"msg": opts["msg"]} if "msg" in opts else {}
             if name == "cancel":
                 ids = [self.resolve_id(s) for s in pos]
-                pool.cancel(*ids)
+                pool.cancel(*ids, **mkw)
                 self.cancel_targets.update((p, t) for t in ids)
                 return ("ok", tuple(ids))
             if name == "cancel_group":
@@ -641,14 +657,14 @@ class PoolWorld:
                     return ("ok",)
                 req = self.reqs[g]
                 targets = {(p, t) for t in self.created.get(g, ())}
-                pool.cancel_group(req.group)
+                pool.cancel_group(req.group, **mkw)
                 self.group_cancelled.add(g)
                 self.cancel_targets |= targets
                 return ("ok",)
             if name == "cancel_all":
                 tags = [t for t, r in self.reqs.items() if r.p == p and t not in self.group_cancelled]
                 targets = {(p, t) for g in tags for t in self.created.get(g, ())}
-                pool.cancel_all()
+                pool.cancel_all(**mkw)
                 self.group_cancelled.update(tags)
                 self.cancel_targets |= targets
                 return ("ok",)
